@@ -187,7 +187,7 @@ def check(prop, tier, seed, only=None, jobs=None, budget=None, max_wall=None):
             continue
         if not res["reproduced"]:
             nonrepro.append((path, f["kind"], res["detail"]))
-            os.remove(path)
+            os.replace(path, os.path.join(rdir, "nonrepro-" + os.path.basename(path)))  # kept for diagnosis
             continue
         sig = res.get("signature") or f["kind"]
         kf = finding_for(prop, sig, findings)
